@@ -133,7 +133,10 @@ Housekeeping ==
                   /\ ~(\E i \in Ids : subs'[i].known /\ subs'[i].owner = c)
                THEN fate[c] \o "+hk" ELSE fate[c]]
   /\ UNCHANGED <<now, issued, wire, stopped>>
-  /\ Log([act |-> "Housekeeping"])
+  \* what this round removes (situation labels for the test purposes)
+  /\ Log([act |-> "Housekeeping",
+          sit |-> {"H:removes:" \o (IF Valid(subs[i]) THEN "unsubscribed-only" ELSE "expired-or-failed")
+                     : i \in {j \in Ids : subs[j].known /\ subs'[j] = NoSub}}])
 
 \* lost: endpoints whose answer to the SubscriptionEnd message never reaches the provider (the message itself arrives):
 \* still exactly one SubscriptionEnd per live subscription
